@@ -112,6 +112,51 @@ def _nonneg(fn, t):
     return False
 
 
+def _signum_floor_form(fn, pv, ret, ats):
+    """(x, y) when fn is `if x % y == 0 || x.signum() == y.signum() { x / y } else { x / y - 1 }` (the floor for every non-zero y:
+    truncation and floor differ only when the remainder is non-zero and the signs differ), else None."""
+    from analysis.prov import prov_assuming
+    rem = sig = None
+    for at in ats:
+        c = at.cond()
+        if not c or c[0] not in ("Eq", "Ne"):
+            continue
+        a, b = strip(c[1]), strip(c[2])
+        for (p, q) in ((a, b), (b, a)):
+            if p[0] == "bin" and p[1] == "Rem" and const_val(q) == 0:
+                rem = (at, c[0], strip(p[2]), strip(p[3]))
+        if is_call(a, "signum") and is_call(b, "signum"):
+            sig = (at, c[0], {strip(a[2][0]), strip(b[2][0])})
+    # (a bounds assertion on the divisor may come first; it is no branch of the formula)
+    others = [at for at in ats if at is not (rem or (None,))[0] and at is not (sig or (None,))[0] and ret in cfg.reach(fn, at.true_targets[0], cut_blocks=[at.block])
+              and ret in cfg.reach(fn, at.false_targets[0], cut_blocks=[at.block])]
+    if not rem or not sig or others:
+        return None
+    x, y = rem[2], rem[3]
+    if sig[2] != {x, y}:
+        return None
+    def is_div(t):
+        t = strip(t)
+        return t[0] == "bin" and t[1] == "Div" and strip(t[2]) == x and strip(t[3]) == y
+    res = {}
+    for rz in (True, False):
+        for se in (True, False):
+            try:
+                pa = prov_assuming(fn, [(rem[0], rz if rem[1] == "Eq" else not rz), (sig[0], se if sig[1] == "Eq" else not se)])
+            except Exception:
+                return None
+            if pa.flow is not None and pa.flow.state_in[ret] is None:
+                continue        # (short-circuit: the second test is not reached)
+            res[(rz, se)] = strip(pa.local(0, ret, len(fn.blocks[ret]["s"])))
+    for (rz, se), v in res.items():
+        if rz or se:
+            if not is_div(v):
+                return None
+        elif not (v[0] == "bin" and v[1].startswith("Sub") and is_div(v[2]) and const_val(v[3]) == 1):
+            return None
+    return (x, y) if (False, False) in res else None
+
+
 def floor_div_form(fn):
     """(x, y) when `fn` returns floor(x / y) for y > 0, however written: `let d = x / y; if x % y < 0 { d - 1 } else { d }`,
     or `x.div_euclid(y)` with y a widened unsigned value (for a positive divisor the Euclidean quotient is the floor).
@@ -123,10 +168,24 @@ def floor_div_form(fn):
     r = strip(pv.local(0, rets[0], len(fn.blocks[rets[0]]["s"])))
     if is_call(r, "div_euclid") and len(r[2]) == 2:
         x, y = r[2]
-        if not _nonneg(fn, y):
+        # ... or a divisor the function asserts to be positive before dividing (`assert!(y > 0)`: the other outcome does not return)
+        asserted = False
+        for at in A.atoms(fn):
+            c = at.cond()
+            if not c:
+                continue
+            for (o, p_, q_, bad) in ((c[0], c[1], c[2], at.false_targets[0]), (A.NEG[c[0]], c[1], c[2], at.true_targets[0])):
+                for (oo, pp, qq) in ((o, p_, q_), (A.SWAP[o], q_, p_)):
+                    if strip(pp) == strip(y) and ((oo == "Gt" and const_val(qq) == 0) or (oo == "Ge" and const_val(qq) == 1)) \
+                            and rets[0] not in cfg.reach(fn, bad, cut_blocks=[at.block]) and cfg.dominates(fn, at.block, rets[0]):
+                        asserted = True
+        if not _nonneg(fn, y) and not asserted:
             return None, "div_euclid by %s, which is not known to be positive" % show(y)
         return (strip(x), strip(y)), ""
     ats = [a for a in A.atoms(fn)]
+    sg = _signum_floor_form(fn, pv, rets[0], ats)
+    if sg:
+        return sg, ""
     if len(ats) != 1 or ats[0].cond() is None:
         return None, "%d branch(es)" % len(ats)
     from analysis.prov import prov_assuming
